@@ -114,6 +114,7 @@ def run(ctx):
         ("prog.max_lpm_sets_in_one_program", 300, "no accepted program with more than 300 LPM sets"),
         ("cond.long_value_list", 20, "fewer than 20 conditions with 5..40 values"),
         ("cond.ip_set_near_twin", 10, "fewer than 10 address sets that differ from an earlier one in one value"),
+        ("cond.ip_set_near_twin.long", 15, "fewer than 15 address sets of more than 5 values that differ from an earlier one in one value"),
         ("pkt.no_domain_vs_regex_matching_empty_string", 5, "fewer than 5 packets without a domain met a regex that matches the empty string"),
         ("pkt.mac_one_bit_off", 20, "fewer than 20 packets whose MAC is one bit off a rule's MAC"),
         ("pkt.zero_mac_vs_mac_rule", 10, "fewer than 10 frames without a MAC aimed at a mac() rule"),
